@@ -72,6 +72,13 @@ def reset_state():
 
     fs.argument_var_counter = 0
     tbr.reset_global_functions()
+    # mutable default arguments of the stream operators are process-level state too: empty on a fresh process
+    import func_adl.object_stream as osm
+
+    for name in ("Select", "SelectMany", "Where"):
+        for d in getattr(getattr(osm.ObjectStream, name, None), "__defaults__", None) or ():
+            if isinstance(d, dict):
+                d.clear()
 
 
 def quiet_logs():
@@ -220,6 +227,15 @@ def run_shard(args):
                 prop()
             except Violation:
                 out["violations"].append(last["v"])
+            except Exception as e:
+                # Hypothesis reports a failure that does not reproduce when the same case is run again as "flaky".  The
+                # oracles are pure functions of the case, so this means the code under test keeps state between queries.
+                if type(e).__name__ in ("Flaky", "FlakyFailure") and "v" in last:
+                    v = dict(last["v"])
+                    v["msg"] += "  [not reproducible in isolation: the outcome depends on state left behind by earlier queries in the same process]"
+                    out["violations"].append(v)
+                else:
+                    raise
     except Exception:
         out["error"] = traceback.format_exc()
     out["stats"] = stats.dump()
